@@ -238,6 +238,10 @@ def check(chk):
                     f = src(n.func)
                     if f == 'self._connection._requests.pop':
                         popped = True
+                        if len(n.args) > 1:
+                            # pop(key, default) never raises: whether an entry was removed is known only through the result
+                            st_ = node.ast
+                            popped = ('var', src(st_.targets[0])) if isinstance(st_, ast.Assign) and st_.value is n and isinstance(st_.targets[0], ast.Name) else 'unknown'
                     if f == 'self._connection.orphaned_request_ids.add' and n.args and src(n.args[0]) == 'self._req_id' \
                             and holds(n, ('self', '_connection')):
                         orphaned = True
@@ -261,6 +265,40 @@ def check(chk):
                 bad.append('orphan registered=%s but pool told %s' % (orphaned, told))
     chk.judge(not bad, 'C09.orphan', ot, '_on_timeout: popped stream => orphan under lock and return_connection(stream_was_orphaned=True)',
               '; '.join(sorted(set(bad))))
+    # converse: an id is orphaned only if this call really removed its entry (otherwise the response was already processed, the id is
+    # back in the pool, and the late-answer branch would decrement in_flight a second time when the recycled id is answered)
+    adds = [n for n in g.stmt_nodes() if n.kind == 'stmt' and any(isinstance(x, ast.Call) and src(x.func) == 'self._connection.orphaned_request_ids.add' for x in walk_no_nested(n.ast))]
+    if len(adds) != 1:
+        raise AnalysisError('_on_timeout: one orphaned_request_ids.add site expected, found %d' % len(adds))
+    bad2 = []
+    for facts, (popped, orphaned, told) in fl.at(adds[0]):
+        if popped is True:
+            continue
+        if isinstance(popped, tuple) and (facts.knows('%s is None' % popped[1]) is False or facts.knows(popped[1]) is True):
+            continue
+        bad2.append('the entry may already be gone (%s)' % ('pop raised KeyError' if popped is False else 'pop(key, default) result not tested'))
+    chk.judge(not bad2, 'C09.orphan', adds[0].ast, '_on_timeout: a stream id is orphaned only when this call removed its pending entry',
+              'the id is registered as orphaned although %s: if the response was already processed the id is back in request_ids, and once it is reused and answered in_flight is decremented twice' % '; '.join(sorted(set(bad2))))
+    # (_connection, _req_id) is the pair _on_timeout acts on: wherever a borrowed (connection, id) is taken, both are recorded
+    chk.rule('C09.pair', 'ResponseFuture: every `connection, request_id = pool.borrow_connection(...)` is followed, in the same block, by self._connection = connection and self._req_id = request_id')
+    npair = 0
+    for q, f in cluster.functions():
+        if not q.startswith('ResponseFuture.'):
+            continue
+        for st in body_walk(f):
+            if isinstance(st, ast.Assign) and isinstance(st.targets[0], ast.Tuple) and isinstance(st.value, ast.Call) and src(st.value.func).endswith('.borrow_connection') and len(st.targets[0].elts) == 2:
+                npair += 1
+                cvar, ivar = [src(e) for e in st.targets[0].elts]
+                blk = parent(st)
+                sib = None
+                for fld in ('body', 'orelse', 'finalbody'):
+                    if st in getattr(blk, fld, []):
+                        sib = getattr(blk, fld)
+                later = [src(x) for x in sib[sib.index(st) + 1:]] if sib else []
+                chk.judge('self._connection = %s' % cvar in later and 'self._req_id = %s' % ivar in later, 'C09.pair', st, '%s: borrowed (connection, stream id) recorded together' % q,
+                          'the stream id of this attempt is not recorded in _req_id: a later client timeout pops and orphans the id of a previous attempt - possibly a recycled id that now belongs to another request - and leaves this attempt registered')
+    if npair < 1:
+        raise AnalysisError('ResponseFuture: no borrow_connection site found')
     for mname, fq in ((pool, 'HostConnection.return_connection'), (pool, 'HostConnectionPool.return_connection')):
         f = mname.func(fq)
         decs = [st for st, tgt, ff in attr_writes(mname, 'in_flight') if ff is f and isinstance(st, ast.AugAssign) and isinstance(st.op, ast.Sub)]
